@@ -242,6 +242,9 @@ def nk (i : Nat) : Nat := 3 * i + 2
 /-- The conditional-section key of an optional part of `visit_Try` (its first statement), if present. -/
 def repKey (ss : List Stmt) : List Nat := (ss.head?.map (fun s => ck s.id)).toList
 
+/-- The conditional-section key of the `else` block of try `i` (the `Try` node itself), if the block is present. -/
+def elseKey (i : Nat) (orelse : List Stmt) : List Nat := if orelse.isEmpty then [] else [ck i]
+
 mutual
 /-- The (tagged) dictionary keys the visit of `s` creates or deletes in the current builder (nested function/class
 bodies excluded: they have their own builders). -/
@@ -250,8 +253,8 @@ def stmtKeys' : Stmt → List Nat
   | .while_ i _ body orelse => sk i :: (keysL body ++ keysL orelse)
   | .for_ i _ _ body orelse _ isAsync => if isAsync then keysL body ++ keysL orelse else sk i :: (keysL body ++ keysL orelse)
   | .with_ _ _ body _ => keysL body
-  | .try_ _ body handlers orelse final =>
-      repKey orelse ++ (repKey handlers ++ (keysL body ++ (keysL handlers ++ (keysL orelse ++ keysL final))))
+  | .try_ i body handlers orelse final =>
+      elseKey i orelse ++ (repKey handlers ++ (keysL body ++ (keysL handlers ++ (keysL orelse ++ keysL final))))
   | .handler i _ _ body => sk i :: keysL body
   | .functionDef _ _ _ body _ _ isAsync => if isAsync then keysL body else []
   | _ => []
@@ -370,7 +373,7 @@ def keys3 : Stmt → List Nat
   | .for_ i _ iter body orelse _ _ => sk i :: (tnodes (iter.kidLams ++ [iter.id]) ++ (keysL3 body ++ keysL3 orelse))
   | .with_ _ items body _ => tnodes (withItemNodes items) ++ keysL3 body
   | .try_ i body handlers orelse final =>
-      sk i :: (repKey orelse ++ (repKey handlers ++ (keysL3 body ++ (keysL3 handlers ++ (keysL3 orelse ++ keysL3 final)))))
+      sk i :: (elseKey i orelse ++ (repKey handlers ++ (keysL3 body ++ (keysL3 handlers ++ (keysL3 orelse ++ keysL3 final)))))
   | .handler i ty _ body => sk i :: (tnodes (lamsL ty) ++ keysL3 body)
   | .functionDef i _ _ body _ _ isAsync => if isAsync then keysL3 body else [nk i]
   | .classDef i .. => [nk i]
